@@ -185,7 +185,10 @@ func (reqDom) Gen(r *gen.R, tier string, emit func(string)) {
 		if r.Chance(1, 8) {
 			pk = "e"
 		} else if r.Chance(1, 12) {
-			pk = "b"
+			// broken JSON, JSON that is not an object, plain garbage
+			pk = r.Pick([]string{"b", "b", "ba", "bn", "bs", "bx"})
+		} else if r.Chance(1, 16) {
+			pk = r.Pick([]string{"ow", "en"}) // an object after JSON whitespace; the JSON null
 		}
 		params, token := "-", "-"
 		if r.Bool() {
@@ -580,7 +583,17 @@ func (reqDom) Exec(a []string) string {
 		switch pk {
 		case "b":
 			payload = []byte(`{"cid":`)
-		case "o":
+		case "ba":
+			payload = []byte(`[]`)
+		case "bn":
+			payload = []byte(`1`)
+		case "bs":
+			payload = []byte(`"str"`)
+		case "bx":
+			payload = []byte(`xyz`)
+		case "en":
+			payload = []byte(`null`)
+		case "o", "ow":
 			m := map[string]interface{}{"cid": cid, "isHttp": http, "query": query}
 			if params != "-" {
 				m["params"] = json.RawMessage(params)
@@ -589,6 +602,9 @@ func (reqDom) Exec(a []string) string {
 				m["token"] = json.RawMessage(token)
 			}
 			payload, _ = json.Marshal(m)
+			if pk == "ow" {
+				payload = append([]byte(" \n\t"), payload...)
+			}
 		}
 		if run.C.Deliver(subj, reply, payload) == 0 {
 			return "not-delivered"
